@@ -229,9 +229,61 @@ fn check_invalid(rep: &mut Report, s: &Setup, r: &mut Rng) {
     }
 }
 
+/// Signatures over one state's header say nothing about another state - whatever this process has verified before.
+/// The full proof of state A (which confirms A, so every pair in it has just been verified) is offered to A's child
+/// B and to B's sibling B' (same parent, another proposer action), and the other way round.
+fn check_replayed(rep: &mut Report, s: &Setup) {
+    let a = s.sealed.clone();
+    let made = guarded(move || {
+        let b = a.next_unsealed().seal(None);
+        let b2 = a.next_unsealed().seal(Some(melstructs::ProposerAction { fee_multiplier_delta: 0, reward_dest: melstructs::Address(tmelcrypt::HashVal([7u8; 32])) }));
+        (b, b2)
+    });
+    let (b, b2) = match made {
+        Ok(x) => x,
+        Err(_) => return,
+    };
+    let states = [("parent", s.sealed.clone()), ("child", b), ("child-sibling", b2)];
+    let proofs: Vec<BTreeMap<Ed25519PK, Bytes>> = states
+        .iter()
+        .map(|(_, st)| {
+            let hh = st.header().hash();
+            s.keys.iter().map(|k| (k.pk, Bytes::from(k.sk.sign(&hh.0)))).collect()
+        })
+        .collect();
+    for round in 0..2 {
+        for (i, (ni, st)) in states.iter().enumerate() {
+            for (j, (nj, _)) in states.iter().enumerate() {
+                // round 0: only the own proofs, so that every pair has been seen to verify; round 1: everything
+                if round == 0 && i != j {
+                    continue;
+                }
+                rep.eval();
+                let st2 = st.clone();
+                let pf = proofs[j].clone();
+                let got = guarded(move || st2.confirm(pf).is_some());
+                if i != j && states[i].1.header().hash() != states[j].1.header().hash() {
+                    rep.count("full proofs of one state offered to another state after both had been confirmed");
+                    if let Ok(true) = got {
+                        rep.violate(
+                            "C14|invalid-signature-confirms|SealedState::confirm|signatures-over-another-states-header,seen-valid-before",
+                            format!("the {} was confirmed by signatures over the header of the {}, which this process had verified for that state before", ni, nj),
+                            json!({"setup": s.desc, "confirmed": ni, "signatures_of": nj}),
+                        );
+                    }
+                } else if i == j && round == 1 {
+                    if let Ok(false) = got {
+                        rep.violate("C14|majority-does-not-confirm|SealedState::confirm|all-stakers-sign,after-foreign-proofs", "the proof signed by all stakers stopped confirming after proofs of other states had been offered".into(), json!({"setup": s.desc, "state": ni}));
+                    }
+                }
+            }
+        }
+    }
+}
+
 pub fn run(p: &Params) -> Report {
     let mut rep = Report::new("C14");
-    rep.rule = "cases = (stake distribution, signer subset): every subset of signers for every weight tuple from {1,2,3,5,8}^n, n = 1..4 exhaustively and sampled tuples for n = 5,6, at heights in epochs 0/1/7, with and without stakes of the same keys outside the epoch and with a key's weight split over two stakes; plus proofs with one corrupted/swapped/foreign/other-header/truncated signature. Oracle: 3*present > 2*total => confirms, 3*present < 2*total => does not, any invalid signature => does not, supersets never un-confirm. Non-trivial = every (distribution, subset) pair; distinct by its description".into();
+    rep.rule = "cases = (stake distribution, signer subset): every subset of signers for every weight tuple from {1,2,3,5,8}^n, n = 1..4 exhaustively and sampled tuples for n = 5,6, at heights in epochs 0/1/7, with and without stakes of the same keys outside the epoch and with a key's weight split over two stakes; plus proofs with one corrupted/swapped/foreign/other-header/truncated signature, and the full proofs of a state, its child and the child's sibling offered to one another after each has confirmed its own. Oracle: 3*present > 2*total => confirms, 3*present < 2*total => does not, any invalid signature => does not, supersets never un-confirm. Non-trivial = every (distribution, subset) pair; distinct by its description".into();
     let ws = [1u128, 2, 3, 5, 8];
     let mut tuples: Vec<Vec<u128>> = vec![];
     for n in 1..=4usize {
@@ -293,6 +345,9 @@ pub fn run(p: &Params) -> Report {
         if i % 7 == 0 {
             check_invalid(&mut rep, &s, &mut rr);
         }
+        if i % 3 == 0 && t.iter().copied().fold(0u128, |a, b| a.saturating_add(b)) <= (1u128 << 127) {
+            check_replayed(&mut rep, &s);
+        }
         if rep.samples.len() < 3 {
             rep.sample(json!({"stake_distribution": s.desc, "subsets_checked": 1u64 << t.len()}));
         }
@@ -300,5 +355,6 @@ pub fn run(p: &Params) -> Report {
     rep.require("subsets above 2/3", 200);
     rep.require("subsets below 2/3", 200);
     rep.require("proofs padded with valid signatures of non-voters", 500);
+    rep.require("full proofs of one state offered to another state after both had been confirmed", 300);
     rep
 }
